@@ -6,4 +6,45 @@
 
 namespace eng {
 rc::Gen<Case> case_gen(const std::string& profile, int aux_bytes = 0);
+
+// Account for one fixed (enumerated) script.  A signature it shows that is not excluded yet is minimised first
+// (delta debugging over ops, in-process) so that the replay file is small; then the whole script is accounted.
+template<class Run>
+inline void account_fixed_script(const vf::Options& o, vf::Tally& tally, const Case& c, const std::string& what, Run run_case, int budget_per_signature = 250)
+{
+   vf::put_current(to_text(c));   // a crash inside the fixed script leaves it behind for the driver to minimise
+   vf::Outcome out = run_case(c, o);
+   for (auto& f : out.findings) {
+      if (tally.excluded.count(f.signature) || o.get("survey", 0) != 0) continue;
+      Case small = c;
+      int budget = budget_per_signature;
+      for (std::size_t n = 2; small.ops.size() >= 2 && budget > 0;) {
+         const std::size_t chunk = std::max<std::size_t>(1, small.ops.size() / n);
+         bool reduced = false;
+         for (std::size_t i = 0; i < small.ops.size() && budget > 0; i += chunk) {
+            Case cand = small;
+            cand.ops.erase(cand.ops.begin() + long(i), cand.ops.begin() + long(std::min(small.ops.size(), i + chunk)));
+            --budget;
+            vf::Outcome r = run_case(cand, o);
+            bool still = false;
+            for (auto& g : r.findings) still = still || g.signature == f.signature;
+            if (still) {
+               small = cand;
+               n = std::max<std::size_t>(n - 1, 2);
+               reduced = true;
+               break;
+            }
+         }
+         if (!reduced) {
+            if (chunk == 1) break;
+            n = std::min(small.ops.size(), n * 2);
+         }
+      }
+      vf::Outcome one;
+      one.findings.push_back(f);
+      vf::account(o, tally, to_text(small), "minimised from " + what, one);
+      --tally.evaluations;
+   }
+   vf::account(o, tally, to_text(c), what, out);
+}
 }
